@@ -14,7 +14,7 @@ def upat(v, w):
     return v & ((1 << w) - 1)
 
 
-def make_trace(design, ins, outs, events, meta=None):
+def make_trace(design, ins, outs, events, meta=None, want_wf=False):
     """ins / outs: dict port-name -> Signal (names must equal the RTLIL port names); events: list of dict name->value,
     all entries of one event are applied in ONE testbench write.  Returns a trace dict, or raises."""
     with warnings.catch_warnings():
@@ -58,7 +58,7 @@ def make_trace(design, ins, outs, events, meta=None):
     sim.add_testbench(tb)
     sim.run()
     return {"n": net["n"], "nodes": net["nodes"], "ffs": net["ffs"], "init": init, "steps": steps,
-            "meta": meta or {}, "cells": len(net["nodes"])}
+            "meta": meta or {}, "cells": len(net["nodes"]), "wf": rtlil_parse.wf_document(doc) if want_wf else None}
 
 
 def random_events(rng, ins, clocks, n, resets=()):
